@@ -129,6 +129,15 @@ def handle (op : String) (args : List String) : Option String :=
       match Halton.phiLoop (1.0 : Float) (fun y => Float.pow y (1.0 / Float.ofNat (d + 1))) 10000 2.0 with
       | none => pure "no-fixed-point"
       | some phi => pure (floatToHex phi ++ " | " ++ fl (Halton.alphas (1.0 : Float) (fun x k => Float.pow x (Float.ofNat k)) phi d))
+  | "cors.run" => do
+      -- maxSamples rho0 p dims bs | history lengths handed to the successive calls: radii and constraint counts of every call
+      let r ← run (do
+        let m ← nat; let rho ← flt; let p ← flt; let dims ← nat; let bs ← nat; let ns ← list nat
+        pure (m, rho, p, dims, bs, ns)) args
+      let (m, rho, p, dims, bs, ns) := r
+      if dims = 0 then none else
+      let o : Cors.Ops Float := ⟨Float.ofNat, 3.141592653589793, Float.pow⟩
+      pure (" | ".intercalate ((Cors.run o ⟨m, rho, p⟩ dims bs 0 ns).map (fun c => fl c.1 ++ " ; " ++ showNats c.2)))
   | "cal.run" => Drv.Cal.handle args
   | "rl.run" => Drv.RL.handle args
   | "ckpt.saves" => do
